@@ -257,6 +257,7 @@ def _dist_spec(cfg, i, path):
 
 
 from contracts import c24_chains as CH
+from contracts import c24_counts as CN
 
 CONTRACTS = [
     Contract('combine_limit_and_offset', 'pony.orm.sqltranslation:combine_limit_and_offset', _clo_configs, _clo_case,
@@ -282,4 +283,7 @@ CONTRACTS = [
                                        'pony.orm.core:Query.exists', 'pony.orm.core:Query.count', 'pony.orm.core:Query._aggregate', 'pony.orm.core:Query.random', 'pony.orm.core:Query.delete',
                                        'pony.orm.core:Query.filter', 'pony.orm.core:Query.order_by', 'pony.orm.core:QueryResult'],
              CH.configs, CH.case, [('chain_equals_the_python_operation_on_the_full_result', CH.spec)], level='bounded', bound=CH.BOUND),
+    Contract('count_exists_len_vs_list', ['pony.orm.core:Query.count', 'pony.orm.core:Query.exists', 'pony.orm.core:Query.__len__', 'pony.orm.core:Query.distinct', 'pony.orm.core:Query.without_distinct',
+                                          'pony.orm.core:Query._aggregate', 'pony.orm.sqltranslation:SQLTranslator.construct_sql_ast'],
+             CN.configs, CN.case, [('count_exists_and_len_agree_with_the_list_of_rows', CN.spec)], level='bounded', bound=CN.BOUND),
 ]
